@@ -81,6 +81,7 @@ static std::string runOne(int tickMs, int tpw, int nw, const std::vector<ThreadP
   sh->tr.add(vf::Ev("Begin").i("tick", tickMs).i("range", range * tickMs));
   vf::Options o = opt;
   o.maxSteps = 40000;
+  o.pointAfterUnlock = true;
   vf::reset(o);
   vf::spawn("a",
             [sh, tickMs, tpw, nw, range, &prog]()
